@@ -152,3 +152,33 @@ func vh_C14_L2_deferred_reset() {
 	}
 	vcover("end")
 }
+
+// C14.L3: two streams closed in separate rounds, the second reset request lost: the
+// answer to the first request must not stop the retransmission of the second.
+func vh_C14_L3_two_resets_one_lost() {
+	a, b := vPair(vAssocOpts{pickTSN: true})
+	s1, _ := a.OpenStream(1, PayloadTypeWebRTCBinary)
+	s2, _ := a.OpenStream(2, PayloadTypeWebRTCBinary)
+	_, _ = s1.WriteSCTP(nondetBytes(1), PayloadTypeWebRTCString)
+	_, _ = s2.WriteSCTP(nondetBytes(1), PayloadTypeWebRTCString)
+	vassert(s1.Close() == nil, "close stream 1")
+	net := &vNet{a: a, b: b, dropAt: -1, dupAt: -1}
+	net.wire(a, b) // data of both streams and the first reset request reach the peer
+	vFireAck(b)
+	vassert(s2.Close() == nil, "close stream 2")
+	// the second request is lost
+	for _, raw := range vWriterWake(a) {
+		_ = raw
+	}
+	// the peer's answers (SACK, response to the first request) arrive
+	net.wire(b, a)
+	vFireAck(a)
+	vassert(len(a.reconfigs) >= 1, "the second request is still unanswered")
+	vassert(a.tReconfig.isRunning(), "so its retransmission timer keeps running")
+	net.settle(16, 3)
+	vassert(len(a.reconfigs) == 0, "every reset request is eventually answered")
+	_, p1 := b.streams[1]
+	_, p2 := b.streams[2]
+	vassert(!p1 && !p2, "both streams are reset at the peer")
+	vcover("end")
+}
